@@ -19,3 +19,58 @@ pub(crate) const SPEC_MAX_TOTAL: u32 = 64;
 pub(crate) fn spec_depth_ok(s: u32, a: u32, v: u32, m: u32) -> bool {
     s <= SPEC_MAX_STRUCT && a <= SPEC_MAX_ARRAY && s + a + v + m <= SPEC_MAX_TOTAL
 }
+
+// ---- fixed-size values: little/big endian decoding of the D-Bus basic types ----------------------
+#[allow(dead_code)]
+pub(crate) fn spec_u16(b: &[u8], big: bool) -> u16 {
+    if big { ((b[0] as u16) << 8) | b[1] as u16 } else { ((b[1] as u16) << 8) | b[0] as u16 }
+}
+#[allow(dead_code)]
+pub(crate) fn spec_u32(b: &[u8], big: bool) -> u32 {
+    if big {
+        ((b[0] as u32) << 24) | ((b[1] as u32) << 16) | ((b[2] as u32) << 8) | b[3] as u32
+    } else {
+        ((b[3] as u32) << 24) | ((b[2] as u32) << 16) | ((b[1] as u32) << 8) | b[0] as u32
+    }
+}
+#[allow(dead_code)]
+pub(crate) fn spec_u64(b: &[u8], big: bool) -> u64 {
+    if big {
+        ((spec_u32(&b[0..4], true) as u64) << 32) | spec_u32(&b[4..8], true) as u64
+    } else {
+        ((spec_u32(&b[4..8], false) as u64) << 32) | spec_u32(&b[0..4], false) as u64
+    }
+}
+
+/// byte `i` (0-based, in wire order) of the encoding of a `size`-byte unsigned value
+#[allow(dead_code)]
+pub(crate) fn spec_enc_byte(value: u64, size: usize, big: bool, i: usize) -> u8 {
+    let shift = if big { (size - 1 - i) * 8 } else { i * 8 };
+    ((value >> shift) & 0xff) as u8
+}
+
+/// D-Bus alignment (= size for fixed-size types) by type code, from the specification's marshalling table.
+#[allow(dead_code)]
+pub(crate) fn spec_align_of(code: u8) -> usize {
+    match code {
+        b'y' | b'g' | b'v' => 1,
+        b'n' | b'q' => 2,
+        b'b' | b'i' | b'u' | b'h' | b's' | b'o' | b'a' => 4,
+        b'x' | b't' | b'd' | b'(' | b'{' => 8,
+        _ => 0,
+    }
+}
+
+/// `true` iff the `n` bytes at `b[start..start+n]` exist and are all zero (n <= 7; loop-free on purpose so
+/// that callers can run with a small unwinding bound).
+#[allow(dead_code)]
+pub(crate) fn spec_zero_padding(b: &[u8], start: usize, n: usize) -> bool {
+    if n > 7 || start > b.len() || n > b.len() - start { return false; }
+    (n < 1 || b[start] == 0)
+        && (n < 2 || b[start + 1] == 0)
+        && (n < 3 || b[start + 2] == 0)
+        && (n < 4 || b[start + 3] == 0)
+        && (n < 5 || b[start + 4] == 0)
+        && (n < 6 || b[start + 5] == 0)
+        && (n < 7 || b[start + 6] == 0)
+}
